@@ -576,7 +576,12 @@ def evaluate_set(s, wd, cfg, rng, stats):
             kinds.append("absolute")
         if plain and all(n in s["files"] for n in plain) and len(set(order)) == len(order):
             kinds.append("fifo")    # (a pipe can be read once: not when a file is named twice)
-        kind = kinds[stats["sets"] % len(kinds)] if kinds else None
+        sel = stats["sets"]
+        kind = kinds[sel % len(kinds)] if kinds else None
+        if cfg.get("force_delivery"):
+            # replay / minimisation: the variation that was recorded, not the one the index would pick
+            kind, sel = cfg["force_delivery"]
+            kind = kind if kind in kinds else None
         if kind:
             wd3 = os.path.join(wd, "again")
             fresh_dir(wd3)
@@ -585,14 +590,14 @@ def evaluate_set(s, wd, cfg, rng, stats):
             order3 = list(order)
             feeder = None
             if kind == "spelling":
-                sep = "//" if stats["sets"] % 2 else "/./"
+                sep = "//" if sel % 2 else "/./"
                 order3 = [n.replace("/", sep, 1) if (":" not in n and "/" in n) else n for n in order]
                 pairs = [(b.encode(), a.encode()) for a, b in zip(order, order3) if a != b]
             elif kind == "absolute":
                 order3 = [os.path.join(wd3, n) if ":" not in n else n for n in order]
                 pairs = [((wd3 + "/").encode(), b"")]
             else:
-                victim = plain[stats["sets"] % len(plain)]
+                victim = plain[sel % len(plain)]
                 feeder = FifoFeeder(os.path.join(wd3, victim), s["files"][victim])
             clock, pid = sim_params()
 
@@ -616,7 +621,7 @@ def evaluate_set(s, wd, cfg, rng, stats):
                 base_v = (first[1][0], first[1][2])
             if v != base_v or (kind != "absolute" and arte != first[2]):
                 viol.append(("environment_dependent_output", "%s delivery of the same bytes (%s) -> %s, baseline -> %s\n--- stderr there\n%s\n--- stderr baseline\n%s" %
-                             (kind, order3, v, base_v, err3.decode(errors="replace")[-600:], first[3].err.decode(errors="replace")[-600:]), {"delivery": kind}))
+                             (kind, order3, v, base_v, err3.decode(errors="replace")[-600:], first[3].err.decode(errors="replace")[-600:]), {"delivery": [kind, sel]}))
             shutil.rmtree(wd3, ignore_errors=True)
     # D3: rendering in every colour x charset configuration
     if stats["sets"] % cfg["d3_every"] == 0 or panicked:
@@ -831,7 +836,7 @@ def decode_set(d):
             "files": {k: v.encode("utf-8", errors="surrogateescape") for k, v in d["files"].items()}}
 
 
-def minimise_set(s, cls, tier):
+def minimise_set(s, cls, tier, extra=None):
     """Shrink the input set while the same class persists: drop files, then
     ddmin over lines of each file."""
     from fuzzsim import ddmin
@@ -844,6 +849,8 @@ def minimise_set(s, cls, tier):
                  "locations_checked": 0, "sets": 0}
         c2 = dict(cfg)
         c2["d3_every"] = 1
+        if extra and extra.get("delivery"):
+            c2["force_delivery"] = tuple(extra["delivery"])
         v = evaluate_set(cand, wd, c2, rng, stats) + check_locations_structured(cand, wd, stats)
         return any(c == cls for c, _, _ in v)
 
@@ -876,7 +883,7 @@ def _min_job(args):
     s, cls, detail, extra, tier, seed = args
     set_min_budget()
     try:
-        m, ok = minimise_set(s, cls, tier)
+        m, ok = minimise_set(s, cls, tier, extra)
     except HarnessError:
         m, ok = s, False
     record = {"engine": "detsim", "set": encode_set(m), "tier": tier, "run_seed": "%s-%s" % (sha(s["id"]), cls),
@@ -1071,6 +1078,8 @@ def replay(record):
     tier = record.get("tier", "quick")
     cfg = dict(TIERS[tier])
     cfg["d3_every"] = 1
+    if (record["observed"].get("extra") or {}).get("delivery"):
+        cfg["force_delivery"] = tuple(record["observed"]["extra"]["delivery"])
     wd = os.path.join(work_root(), "C13", "replay-%d" % os.getpid())
     rng = rng_for(1, "C13/min", 0)
     stats = {"runs": 0, "compiler_panics": 0, "diag_lists": set(), "sets_with_diagnostics": 0, "render_configs": 0,
